@@ -10,6 +10,31 @@ from .values import *  # noqa: F401,F403
 from . import values as vals
 
 
+_QCACHE = {}
+
+
+def _has_quantifier(f):
+    k = f.get_id()
+    hit = _QCACHE.get(k)
+    if hit is not None and hit[0].eq(f):
+        return hit[1]
+    r = False
+    todo = [f]
+    seen = set()
+    while todo:
+        e = todo.pop()
+        i = e.get_id()
+        if i in seen:
+            continue
+        seen.add(i)
+        if z3.is_quantifier(e):
+            r = True
+            break
+        todo.extend(e.children())
+    _QCACHE[k] = (f, r)
+    return r
+
+
 class ReturnSignal(Exception):
     def __init__(self, v):
         self.v = v
@@ -92,6 +117,7 @@ class Path:
         self.notes = []
         self.memo = {}
         self.dropped = set()
+        self.obs_log = []
 
     # naming: deterministic per path so that re-execution recreates the same terms
     def name(self, base):
@@ -115,14 +141,33 @@ class Path:
         self.assumptions.append(f)
 
     def feasible(self, extra=None):
+        """Path pruning.  Uses the string-sort abstraction: abstract-unsat implies
+        unsat, so pruning is sound; a spuriously feasible path only costs time (its
+        obligations are discharged under the precise path condition)."""
+        from .abstraction import abstract_query
+
+        t0 = time.time()
+        goal = z3.Not(extra) if extra is not None else z3.BoolVal(False)
+        q = abstract_query(self.assumptions, goal)
+        if q is not None:
+            na, ng, exact = q
+            fs = na + [z3.Not(ng)]
+        else:
+            fs = list(self.assumptions) + ([extra] if extra is not None else [])
+        # 1. quantifier-free part only (a weaker set: unsat here is unsat overall)
+        qf = [f for f in fs if not _has_quantifier(f)]
         s = z3.Solver()
         s.set("timeout", self.feas_timeout_ms)
-        for a in self.assumptions:
+        for a in qf:
             s.add(a)
-        if extra is not None:
-            s.add(extra)
-        t0 = time.time()
         r = s.check()
+        if r != z3.unsat and len(qf) != len(fs):
+            # 2. everything, briefly
+            s = z3.Solver()
+            s.set("timeout", min(400, self.feas_timeout_ms))
+            for a in fs:
+                s.add(a)
+            r = s.check()
         self.solver_time += time.time() - t0
         return r != z3.unsat
 
